@@ -422,7 +422,9 @@ func runC15(p *P, r *R) {
 		ok := false
 		allInstrs(f, func(in ssa.Instruction) {
 			if ia, isIA := in.(*ssa.IndexAddr); isIA && isLoadOf(ia.X, "streamPool.streams") {
-				if rem, isB := stripConv(ia.Index).(*ssa.BinOp); isB && rem.Op == token.REM && isLoadOf(rem.X, word) && isLoadOf(rem.Y, "streamPool.capacity") {
+				// the slot is (64-bit counter) % capacity: the counter must not be narrowed before the remainder is taken
+				// (for a capacity that is not a power of two, (uint32(c)) % cap jumps when c crosses 2^32)
+				if rem, isB := stripConv(ia.Index).(*ssa.BinOp); isB && rem.Op == token.REM && !narrows(rem.X) && isLoadOf(rem.X, word) && isLoadOf(stripConv(rem.Y), "streamPool.capacity") {
 					ok = true
 				}
 			}
@@ -466,4 +468,19 @@ func c15HandsOff(p *P, r *R) {
 		}
 	}
 	r.count("R15.7", "pool push sites", n, 1)
+}
+
+// narrows: some integer conversion on the way from the underlying value to v drops bits.
+func narrows(v ssa.Value) bool {
+	for {
+		c, ok := v.(*ssa.Convert)
+		if !ok {
+			return false
+		}
+		ws, wd := sizeofBasic(c.X.Type()), sizeofBasic(c.Type())
+		if ws != 0 && wd != 0 && wd < ws {
+			return true
+		}
+		v = c.X
+	}
 }
